@@ -145,7 +145,9 @@ def _run(ctx, case, net):
         def setup(o, a=a):
             o.tx_timeout = case["tx_timeout"]
             o.route_timeout = case["route_timeout"]
-            if a in case.get("relay", ()):
+            if a in case.get("relay", ()) and 1 <= case.get("mlevel", {}).get(str(a), net_ref.level(a)) <= 3:
+                # (relaying is specified for levels 1..3; two relays that both override their level
+                # to 0 re-broadcast each other's frames to level 0 for ever - DESIGN 10.4, not judged)
                 o.multicast_relay = True
             if a in case.get("mc_off", ()):
                 o.allow_multicast = False
